@@ -26,6 +26,9 @@ type multiFetcher struct {
 	//
 	// Used to identify which fetcher to get the rest of the fields from in `GetFields`.
 	currentFetcherIndex int
+
+	// True if the docID last returned from `NextDoc` has not been consumed by `GetFields`.
+	hasPendingDocID bool
 }
 
 var _ fetcher = (*multiFetcher)(nil)
@@ -55,6 +58,13 @@ type fetcherDocID struct {
 }
 
 func (f *multiFetcher) NextDoc() (immutable.Option[string], error) {
+	if f.hasPendingDocID && f.currentFetcherIndex >= 0 && f.currentFetcherIndex < len(f.children) {
+		// The caller has skipped the last document without fetching its fields (e.g. because of
+		// missing permissions), it must not be yielded again.
+		f.children[f.currentFetcherIndex].docID = immutable.None[string]()
+	}
+	f.hasPendingDocID = false
+
 	selectedFetcherIndex := -1
 	var selectedDocID immutable.Option[string]
 
@@ -90,6 +100,7 @@ func (f *multiFetcher) NextDoc() (immutable.Option[string], error) {
 	}
 
 	f.currentFetcherIndex = selectedFetcherIndex
+	f.hasPendingDocID = selectedDocID.HasValue()
 	return selectedDocID, nil
 }
 
@@ -100,6 +111,7 @@ func (f *multiFetcher) GetFields() (immutable.Option[EncodedDocument], error) {
 	}
 
 	f.children[f.currentFetcherIndex].docID = immutable.None[string]()
+	f.hasPendingDocID = false
 
 	return doc, nil
 }
